@@ -298,12 +298,20 @@ func CoordMain(propID, tier string, seed uint64, runsOverride int) int {
 			}
 		}
 	}
+	if cs.agg.Runs < total && !cs.capped && len(cs.viols) == 0 && len(cs.extra) == 0 && len(cs.harness) == 0 {
+		cs.harness = append(cs.harness, fmt.Sprintf("only %d of %d planned runs were executed", cs.agg.Runs, total))
+	}
 	wall := time.Since(start).Seconds()
 	if err := writeEvidence(p, cs, tier, seed, wall, len(violLines)); err != nil {
 		cs.harness = append(cs.harness, "evidence: "+err.Error())
 	}
 	if len(cs.harness) > 0 {
+		seenH := map[string]bool{}
 		for _, h := range cs.harness {
+			if seenH[h] {
+				continue
+			}
+			seenH[h] = true
 			fmt.Fprintf(os.Stderr, "HARNESS-TROUBLE: %s\n", h)
 		}
 		if exit == 0 {
@@ -383,6 +391,12 @@ func serveWorker(cs *coordState, p *Prop, id int, seed uint64, hang time.Duratio
 			if !ok {
 				// worker ended
 				cmd.Wait()
+				if !ready {
+					cs.mu.Lock()
+					cs.harness = append(cs.harness, "worker exited before becoming ready: "+lastLines(stderr.String(), 5))
+					cs.mu.Unlock()
+					return false
+				}
 				if batchDone {
 					return false
 				}
